@@ -156,13 +156,16 @@ class Evaluator:
                 return v.args[2]
             # fall through to the base when the base cannot define it differently
             return self.mk_attr(v.args[0], name, frame)
-        if k == "choice" and all(a.kind in ("construct", "update", "choice") for a in v.args[2]):
+        if k == "choice" and v.args[0] != "where" and name not in ARRAY_METHODS and not name.startswith("__"):
             alts = tuple(self.mk_attr(a, name, frame) for a in v.args[2])
             if all(a is alts[0] for a in alts):
                 return alts[0]
-            return mk("choice", v.args[0], v.args[1], alts)
-        if k == "phi" and all(a.kind in ("construct", "update") for a in v.args[0]):
-            return self.mk_phi([self.mk_attr(a, name, frame) for a in v.args[0]])
+            if not any(a.kind == "fn" for a in alts):
+                return mk("choice", v.args[0], v.args[1], alts)
+        if k == "phi" and name not in ARRAY_METHODS:
+            alts = [self.mk_attr(a, name, frame) for a in v.args[0]]
+            if not any(a.kind == "fn" for a in alts):
+                return self.mk_phi(alts)
         if k in ("batched", "elem", "loopin", "leaf") and v.args[0].kind in ("construct", "update"):
             inner = self.mk_attr(v.args[0], name, frame)
             return self.wrap(k, inner, v)
